@@ -140,6 +140,12 @@ class FLPSpec(SelSpec):
                 torch.manual_seed(7100 + 31 * seed + j)
                 td = FLPGenerator(num_loc=5, to_choose=2, **dk)(1)
                 out.append((f"gen5-normal-s{seed}-{j}", dict(locs=td["locs"][0].tolist(), to_choose=2, gen_orig_distances=td["orig_distances"][0].tolist())))
+            # more than 25 locations (distance-matrix kernels switch algorithm with size), on the unit square and far from
+            # the origin, where a float32 matrix-product formula for distances loses its digits
+            for j, dk in enumerate([dict(), dict(min_loc=100.0, max_loc=101.0)]):
+                torch.manual_seed(7300 + 31 * seed + j)
+                td = FLPGenerator(num_loc=30, to_choose=1, **dk)(1)
+                out.append((f"gen30-{'unit' if not dk else 'far'}-s{seed}", dict(locs=td["locs"][0].tolist(), to_choose=1 if dk else 2, gen_orig_distances=td["orig_distances"][0].tolist())))
         return out
 
     # ground truth
